@@ -509,11 +509,13 @@ def run_attr_seq_job(magpy, job):
         A = val if attr == "polarization" else val * mu0
         rows = []
         sid = job["sid"] + k        # (the plan reserves one scene id per step)
+        g2 = quant.gross(P, Mu, P0, Mu0, A)      # common scale of the values before and after the assignment
         for i in range(len(pts)):
-            g = quant.gross(P, Mu, J[i], M[i], P0, Mu0, A)
+            g = quant.gross(P, Mu, J[i], M[i])   # scale of the law between the CURRENT values
             fin = bool(all(np.isfinite(x).all() for x in (P, Mu, J[i], M[i])))
             rows.append({"t": sid * 10000 + i, "o": [int(x) for x in pts[i]], "fin": fin, "P": quant.q12(P, g), "Mu": quant.q12(Mu, g),
-                         "J": quant.q12(J[i], g), "M": quant.q12(M[i], g), "P0": quant.q12(P0, g), "Mu0": quant.q12(Mu0, g), "A": quant.q12(A, g)})
+                         "J": quant.q12(J[i], g), "M": quant.q12(M[i], g), "Pc": quant.q12(P, g2), "Muc": quant.q12(Mu, g2),
+                         "P0": quant.q12(P0, g2), "Mu0": quant.q12(Mu0, g2), "A": quant.q12(A, g2)})
         scenes.append({"sid": sid, "kind": "attr", "body": body, "pose": {"R": np.eye(3, dtype=int).tolist(), "p2": [0, 0, 0]}, "pol": list(POL),
                        "via": via, "attr": attr, "dec": dec, "seq": True, "outcome": outcome, "exc": exc, "filter": job["filter"], "job": job, "obs": rows})
         if via == "copy" and outcome != "raised":
